@@ -14,7 +14,7 @@ ENGINE = 'E2 explicit-state BFS over process histories, differential against a f
 RULE = ("breadth-first search over process histories: file(S_i) = build and write specification i on fresh objects "
         "(pool engineered to collide in every per-process cache: 0.0/-0.0/0, IDENT 1/1.0/True, same names with other "
         "origins and copy numbers, ZONE vs PARAMETER record type, equal instants in different zones), rewrite of the "
-        "last built objects, mutate-and-rewrite (origin reference, attribute value, index channel units, data, window), enter/leave "
+        "last built objects, mutate-and-rewrite (origin reference, attribute value, index channel units, data, data of another per-row shape, window), enter/leave "
         "high-compatibility mode; the process-global state is deliberately NOT reset between events of a history; "
         "oracle: the bytes of the last write equal those of a fresh interpreter that builds the final specification "
         "alone; non-trivial = state whose last event wrote a file that was compared")
@@ -53,11 +53,19 @@ def _spec(i):
     pat = [F64['p0'], F64['n0'], F64['one']] if i % 2 == 0 else [F64['n0'], F64['p0'], F64['two']]
     ops.append(S.op_add('channel', 'C1', 'CH-B', data=S.arr_spec('float64', [3], pat)))
     ops.append(S.op_add('frame', 'F0', name, channels=[{'$ref': 'C0'}, {'$ref': 'C1'}], index_type='BOREHOLE-DEPTH'))
+    if i in (3, 5):
+        # other record classes/types (AXIS 2, LNAME 9, SCRIPT 6, UDI 8, IFLR NOFMT 1): per-class caches must not mix
+        ops.append(S.op_add('axis', 'AX', name, axis_id='AXIS-ID', coordinates=[0.0, 1.0] if i == 3 else [1, 2]))
+        ops.append(S.op_add('long_name', 'LN', name, quantity='QUANTITY'))
+        ops.append(S.op_add('comment', 'CM', name, text=['TEXT-1', '1', '1.0'] if i == 3 else ['1.0', 'TEXT-1']))
+        ops.append(S.op_add('no_format', 'NF', name, consumer_name='CONSUMER'))
+        ops.append({'op': 'nfdata', 'lf': 'L0', 'nf': 'NF', 'data': {'$bytes': '00017f80ff' if i == 3 else '0100'}})
+        ops.append(S.op_add('well_reference_point', 'WR', name, magnetic_declination={'$f': '8000000000000000'} if i == 5 else 0))
     return {'sul': {'max_record_length': 8192, 'set_identifier': 'SET-1'}, 'ops': ops, 'write': {}}
 
 
 NSPEC = 6
-MUTS = ['origin_ref', 'value', 'units', 'data', 'window']
+MUTS = ['origin_ref', 'value', 'units', 'data', 'window', 'shape']
 EVENTS = [f'F{i}' for i in range(NSPEC)] + ['RW'] + [f'M:{m}' for m in MUTS] + ['HC+', 'HC-']
 
 
@@ -112,6 +120,9 @@ def mutation_ops(m):
         return [], {'data': {'$datadict': {'CH-B': S.arr_spec('float64', [3], [F64['two'], F64['n0'], F64['n0']])}}}
     if m == 'window':
         return [], {'from_idx': 1}
+    if m == 'shape':
+        # the second channel's data gets another per-row shape (3 columns instead of a scalar)
+        return [], {'data': {'$datadict': {'CH-B': S.arr_spec('float64', [3, 3], [F64['one'] + k for k in range(9)])}}}
     raise ValueError(m)
 
 
